@@ -82,6 +82,7 @@ def classes():
         fail = set()
         gate = None
         log = None
+        delay = None
 
         async def execute(self, job):
             tag = posixpath.basename(job.name)
@@ -91,7 +92,8 @@ def classes():
             if HCommand.gate is not None:
                 await HCommand.gate(key)
             else:
-                await asyncio.sleep(0)
+                for _ in range(HCommand.delay() if HCommand.delay else 1):
+                    await asyncio.sleep(0)
             if key in HCommand.fail:
                 out = CommandOutput("injected failure", Status.FAILED)
             else:
@@ -251,6 +253,15 @@ class Recorder:
             def put(self, token):
                 e = {"ev": "put", "port": rec.pname(self), "step": CUR_STEP.get()}
                 e.update(describe(token))
+                if e.get("k") == "job":
+                    try:
+                        c = self.workflow.context
+                        locs = c.scheduler.get_locations(token.value.name)
+                        e["locs"] = ["%s/%s" % (x.deployment, x.name) for x in locs]
+                        e["exists"] = [os.path.isdir(d) for x in locs for d in e["dirs"]] if all(x.local for x in locs) else None
+                        e["registered"] = [bool(c.data_manager.get_data_locations(d, x.deployment, x.name)) for x in locs for d in e["dirs"]]
+                    except Exception as ex:  # observation failure is reported by the driver
+                        e["observe_error"] = repr(ex)
                 rec.ev.append(e)
                 return orig(self, token)
             put.__wrapped__ = orig
@@ -321,7 +332,7 @@ def read_provenance(dbfile):
     return toks, prov, ports
 
 
-async def run_once(desc, seed=None, K=3, timeout=60.0, gate=None, keep_db=False):
+async def run_once(desc, seed=None, K=3, timeout=60.0, gate=None, keep_db=False, slow_ports=()):
     """Execute `desc` for real.  Returns dict(events, result|error, outputs, token_lists, steps, provenance...)."""
     import random
 
@@ -336,6 +347,8 @@ async def run_once(desc, seed=None, K=3, timeout=60.0, gate=None, keep_db=False)
     C["HCommand"].fail = {("/" + s, tagstr(t)) for s, t in desc.get("fail", [])}
     C["HCommand"].gate = gate
     C["HCommand"].log = rec.ev
+    jrng = __import__("random").Random("job%s" % seed)
+    C["HCommand"].delay = (lambda: jrng.randint(0, 25)) if seed is not None else None
     undo = []
     out = {"desc": desc}
     try:
@@ -347,16 +360,20 @@ async def run_once(desc, seed=None, K=3, timeout=60.0, gate=None, keep_db=False)
                 if f is None:
                     continue
 
-                def mk(f):
+                def mk(f, name=name):
                     async def w(self, *a, **k):
                         r = await f(self, *a, **k)
                         for _ in range(rng.randint(0, K)):
                             await asyncio.sleep(0)
+                        if name == "add_token" and slow_ids and k.get("port", a[3] if len(a) > 3 else None) in slow_ids:
+                            await asyncio.sleep(0.3)      # a slow database completion for tokens of the `slow_ports`
                         return r
                     return w
                 setattr(sq.SqliteDatabase, name, mk(f))
                 undo.append((sq.SqliteDatabase, name, f))
+        slow_ids = set()
         wf, P, realnames = await build_real(ctx, desc, os.path.join(tmp, "work"))
+        slow_ids.update(P[p].persistent_id for p in slow_ports if p in P)
         rec.wrap_step_runs(wf)
         ex = StreamFlowExecutor(wf)
         try:
